@@ -17,7 +17,7 @@ def contract(qualname, params=None, returns=None, requires=(), ensures=(), modif
              raises=(), loops=None, locals=None, ghost=None, trusted=False, note="",
              exc_ensures=None, inline=(), pure=False, decreases=None, fresh=False,
              ghost_vars=None, ghost_code=(), ghost_returns=None, raises_when=None, writes_fresh=(),
-             native_ensures=None, native_requires=None, functional=None, internal_ensures=(), param_attrs=None):
+             native_ensures=None, native_requires=None, functional=None, internal_ensures=(), param_attrs=None, rec_group=None):
     """Register a contract for the real function `qualname` (module path + function / Class.method).
 
     params    {name: type-string}            types of the symbolic inputs
@@ -29,6 +29,9 @@ def contract(qualname, params=None, returns=None, requires=(), ensures=(), modif
     exc_ensures {exc: [expr]}                postconditions on exceptional exit
     loops     {ordinal: {invariant:[expr], decreases: expr, index: name, modifies:[...]}}
     trusted   True => assumed, never proved (collected by the trusted scan)
+    decreases expr                           termination measure of a recursive function (>= 0, strictly smaller at each recursive call)
+    rec_group name                           functions that call each other recursively share a group: a call to a member of the
+                                             caller's group must decrease the measure (callee's measure of the arguments < caller's on entry)
     """
     c = dict(qualname=qualname, params=dict(params or {}), returns=returns,
              requires=list(requires), ensures=list(ensures), modifies=list(modifies),
@@ -38,7 +41,8 @@ def contract(qualname, params=None, returns=None, requires=(), ensures=(), modif
              decreases=decreases, fresh=fresh, ghost_vars=dict(ghost_vars or {}),
              ghost_code=list(ghost_code), ghost_returns=dict(ghost_returns or {}), raises_when=dict(raises_when or {}),
              writes_fresh=list(writes_fresh), native_ensures=native_ensures, native_requires=native_requires,
-             functional=functional, internal_ensures=list(internal_ensures), param_attrs=dict(param_attrs or {}))
+             functional=functional, internal_ensures=list(internal_ensures), param_attrs=dict(param_attrs or {}),
+             rec_group=rec_group)
     CONTRACTS[qualname] = c
     return c
 
